@@ -5,6 +5,7 @@ use serde_json::Value;
 pub mod c03;
 pub mod c04;
 pub mod c05;
+pub mod c06;
 pub mod c08;
 pub mod c09;
 pub mod c10;
@@ -22,6 +23,7 @@ pub fn run(cfg: &Cfg) -> Option<Report> {
         "C03" => c03::run(cfg),
         "C04" => c04::run(cfg),
         "C05" => c05::run(cfg),
+        "C06" => c06::run(cfg),
         "C08" => c08::run(cfg),
         "C09" => c09::run(cfg),
         "C10" => c10::run(cfg),
@@ -41,6 +43,7 @@ pub fn replay(cfg: &Cfg, case: &Value) -> Option<Report> {
         "C03" => c03::replay(cfg, case),
         "C04" => c04::replay(cfg, case),
         "C05" => c05::replay(cfg, case),
+        "C06" => c06::replay(cfg, case),
         "C08" => c08::replay(cfg, case),
         "C09" => c09::replay(cfg, case),
         "C10" => c10::replay(cfg, case),
